@@ -25,6 +25,7 @@ type locker interface {
 type grant struct {
 	gid      int
 	key      int
+	parent   int
 	ctx      context.Context
 	cancel   context.CancelFunc
 	released bool
@@ -199,6 +200,9 @@ func (w *world) try(k, p int) {
 	}
 	if c.Err() != nil && !w.pdead[p] {
 		w.tr.run.Fail("", fmt.Sprintf("trylock-acquired-dead-context key=%d", k))
+	}
+	if c.Err() == nil && w.pdead[p] {
+		w.tr.run.Fail("", fmt.Sprintf("holder-context-live-although-parent-cancelled key=%d parent=%d", k, p))
 	}
 	w.addGrant(gid, k, c, f)
 }
